@@ -60,6 +60,22 @@ func c03Run(c *Ctx) {
 		c.Case(func() interface{} { return d.Describe() })
 		return
 	}
+	handlerCalls := 0
+	if opts&flags.IgnoreUnknown != 0 && (c.K/8)%3 == 1 {
+		// an installed handler does not take unknown options away from IgnoreUnknown's pass-through
+		b.P.UnknownOptionHandler = func(option string, arg flags.SplitArgument, a []string) ([]string, error) {
+			handlerCalls++
+			if len(a) > 0 {
+				return a[1:], nil
+			}
+			return a, nil
+		}
+		c.Defer(func() {
+			if handlerCalls > 0 && !c.Violated() {
+				c.Violate("handler-called-under-ignore-unknown", "IgnoreUnknown is set, yet the unknown-option handler was called %d times", handlerCalls)
+			}
+		})
+	}
 	if (c.K/16)%3 == 2 {
 		c03Hostiles(c, d, b)
 		return
